@@ -293,7 +293,7 @@ def _real_op(op: list[str]) -> str:
 		return exc_enum(e)
 
 
-CALLER_OPS = {'pluck', 'indexer', 'cvarnew', 'range', 'throw', 'dictcomp', 'dany', 'danyargs', 'qany', 'qanyargs', 'qcontains'}
+CALLER_OPS = {'pluck', 'indexer', 'cvarnew', 'callsplit', 'initcall', 'throw', 'dictcomp', 'dany', 'danyargs', 'qany', 'qanyargs', 'qcontains'}
 
 
 class _Obj:
@@ -317,12 +317,24 @@ def _fake_self() -> tuple[Any, dict[str, Any]]:
 	return fake, captured
 
 
-def call_for_range(for_in: str, args_num: int) -> tuple[str, str, str]:
+def call_split(call: str, args_num: int) -> tuple[str, str, str]:
+	"""`break_separator(pluck_func_call_arguments(call), ',')` with tuple unpacking: what Py2Cpp.proc_for_range did until /repo
+	ed1a7d7. NOT a production call site any more (the handler transpiles the argument nodes); composed here from the two real
+	helpers only to keep the model definition `splitCallArguments` tied to them."""
+	from rogw.tranp.implements.cpp.transpiler.py2cpp import PatternParser
+	join_args = PatternParser.pluck_func_call_arguments(call)
+	if args_num == 1:
+		return '0', join_args, '1'
+	if args_num == 2:
+		begin, size = _bp().break_separator(join_args, ',')
+		return begin, size, '1'
+	begin, size, step = _bp().break_separator(join_args, ',')
+	return begin, size, step
+
+
+def call_is_initializer(value: str, var_type: str) -> bool:
 	from rogw.tranp.implements.cpp.transpiler.py2cpp import Py2Cpp
-	fake, cap = _fake_self()
-	node = _Obj(classification='for', iterates=_Obj(as_a=lambda t: _Obj(arguments=[None] * args_num)))
-	Py2Cpp.proc_for_range(fake, node, ['i'], for_in, [])
-	return str(cap['begin']), str(cap['size']), str(cap['step'])
+	return Py2Cpp.is_initializer_call(_fake_self()[0], value, var_type)
 
 
 def call_on_throw(throws: str) -> tuple[str, list[str]]:
@@ -354,9 +366,11 @@ def real_caller(op: list[str]) -> str:
 	if k == 'cvarnew':
 		a, b = PatternParser.pluck_cvar_new(op[1])
 		return f'ok {hx(a)} {hx(b)}'
-	if k == 'range':
-		a, b, c = call_for_range(op[1], int(op[2]))
+	if k == 'callsplit':
+		a, b, c = call_split(op[1], int(op[2]))
 		return f'ok {hx(a)} {hx(b)} {hx(c)}'
+	if k == 'initcall':
+		return f"ok {'true' if call_is_initializer(op[1], op[2]) else 'false'}"
 	if k == 'throw':
 		calls, args = call_on_throw(op[1])
 		return f"ok {hx(calls)} {','.join(hx(a) for a in args)}"
@@ -387,7 +401,7 @@ def op_line(op: list[str]) -> str:
 		return '\t'.join([k, hx(op[1]), hx(op[2]), op[3]])
 	if k == 'analyze':
 		return '\t'.join([k, hx(op[1]), hx(op[2]), hx(op[3]), op[4]])
-	if k == 'range':
+	if k == 'callsplit':
 		return '\t'.join([k, hx(op[1]), op[2]])
 	if k in ('dany', 'qcontains'):
 		return '\t'.join([k, hx(op[1]) if k == 'dany' else hxl(op[1]), hxl(op[2])])
@@ -539,7 +553,9 @@ def caller_ops(rng: random.Random, mode: str, i: int) -> list[list[str]]:
 	call = f'{callee}({sep.join(args)})'
 	ops: list[list[str]] = [['pluck', call], ['cvarnew', call], ['throw', call]]
 	for k in (1, 2, 3):
-		ops.append(['range', call, str(k)])
+		ops.append(['callsplit', call, str(k)])
+	ops.append(['initcall', call, callee])
+	ops.append(['initcall', call + rng.choice(['.dup()', '', ')', ' ']), rng.choice([callee, callee[:1], 'A'])])
 	key = rng.choice(['k', 'a[0]', 'f(x, y)'] + args[:1])
 	ops.append(['indexer', f'{callee}[{sep.join(args)}]'])
 	ops.append(['indexer', f'{call}[{key}]'])
@@ -566,7 +582,7 @@ def stream_callers(ctx: Ctx, n: int) -> Stream:
 		mode = ('clean', 'dirty', 'malformed')[i % 3]
 		if mode == 'malformed':
 			text = gen_malformed(rng, i)
-			ops = [['pluck', text], ['indexer', text], ['cvarnew', text], ['throw', text], ['dictcomp', text], ['range', text, str(rng.randint(1, 3))],
+			ops = [['pluck', text], ['indexer', text], ['cvarnew', text], ['throw', text], ['dictcomp', text], ['callsplit', text, str(rng.randint(1, 3))], ['initcall', text, text.split('(')[0]],
 				['dany', text, [text.split('(')[0]]], ['danyargs', text, rng.choice(['', ',', '('])], ['qcontains', [text, 'a(b)'], ['a']]]
 		else:
 			ops = caller_ops(rng, mode, i)
@@ -574,8 +590,9 @@ def stream_callers(ctx: Ctx, n: int) -> Stream:
 		real = [real_op(op) for op in ops]
 		cases.append(({'kind': mode, 'ops': len(ops)}, lines, real))
 	st = common.correspond('block-callers', cases, 'block', classify=lambda d: d['kind'])
-	st.note = ('the production call sites: PatternParser.pluck_func_call_arguments / break_indexer / pluck_cvar_new directly; Py2Cpp.proc_for_range, on_throw, '
-		'on_dict_comp as the real (unbound) handler methods with a recording `render`; DecoratorHelper.any / any_args and DecoratorQuery.any / any_args / contains')
+	st.note = ('the production call sites: PatternParser.pluck_func_call_arguments / break_indexer / pluck_cvar_new directly; Py2Cpp.on_throw, on_dict_comp, '
+		'is_initializer_call as the real (unbound) methods with a recording `render`; DecoratorHelper.any / any_args and DecoratorQuery.any / any_args / contains; '
+		'`callsplit` = break_separator(pluck_func_call_arguments(·)) composed in the harness (the former proc_for_range splitting, retired as a production site by /repo ed1a7d7)')
 	return st
 
 
@@ -606,7 +623,7 @@ def stream_dictlike(ctx: Ctx, n: int) -> Stream:
 
 def search_callers(ctx: Ctx) -> SearchResult:
 	rng = ctx.sub_rng('law-callers')
-	res = SearchResult('production callers on generated call texts: range(a, b[, c]) / throw E(a, …) / {k, v} / f(args) / recv[key] give back exactly the generated parts (real Py2Cpp handler methods and PatternParser helpers)')
+	res = SearchResult('production callers on generated call texts: throw E(a, …) / {k, v} / f(args) / T(args) is an initializer call / recv[key] give back exactly the generated parts (real Py2Cpp methods and PatternParser helpers)')
 	hist: dict[str, int] = {}
 	seen: set[str] = set()
 
@@ -625,12 +642,17 @@ def search_callers(ctx: Ctx) -> SearchResult:
 		res.cases += 3
 		hist[f'{mode} args={n}'] = hist.get(f'{mode} args={n}', 0) + 1
 		try:
-			got: Any = guarded(call_for_range, call, n)
+			got: Any = guarded(call_is_initializer, call, callee)
 		except Exception as e:  # noqa: BLE001
 			got = exc_enum(e)
-		want = ('0', sep.join(args), '1') if n == 1 else (args[0], args[1], '1') if n == 2 else (args[0], args[1], args[2])
-		if got != want:
-			bad('caller:range', f'proc_for_range({call!r}, {n} arguments) renders begin/size/step {got!r}, the arguments are {want!r}', {'for_in': call, 'args_num': n})
+		if got is not True:
+			bad('caller:initializer_call', f'is_initializer_call({call!r}, {callee!r}) = {got!r}, expected True', {'value': call, 'var_type': callee})
+		try:
+			got = guarded(call_is_initializer, call + '.dup()', callee)
+		except Exception as e:  # noqa: BLE001
+			got = exc_enum(e)
+		if got is not False:
+			bad('caller:initializer_call', f'is_initializer_call({call + ".dup()"!r}, {callee!r}) = {got!r}, expected False', {'value': call + '.dup()', 'var_type': callee})
 		try:
 			got = guarded(call_on_throw, call)
 		except Exception as e:  # noqa: BLE001
@@ -1136,7 +1158,8 @@ STATEMENTS: dict[str, str] = {
 	'bracket_all_levels_counterexample': 'the blocks are NOT all groups at every depth: a(b(c(d(e)))) lists three levels (unders is two levels deep)',
 	'parse_total / parse_pair_total / parse_bracket_total': 'the loops of _analyze_entry, _parse, _parse_block finish on EVERY text and delimiter set (two-character brackets): no fuel exhaustion; every iteration ends its loop or moves the index forward',
 	'sep_join': 'break_separator(d.join(parts)) = [p.strip() for p in parts] for parts that are fragments without top-level d (last one not empty): the law every production caller relies on',
-	'caller_pluck / caller_range / caller_throw / caller_dict_comp': 'PatternParser.pluck_func_call_arguments, Py2Cpp.proc_for_range (begin, size, step), on_throw (calls, arguments), on_dict_comp (key, value) return exactly the generated argument texts, for arbitrary bracket-balanced arguments (strings may hold any bracket but parentheses for the break_last_block based ones)',
+	'caller_pluck / caller_throw / caller_dict_comp / caller_initializer_call': 'PatternParser.pluck_func_call_arguments, Py2Cpp.on_throw (calls, arguments), on_dict_comp (key, value) return exactly the generated argument texts and is_initializer_call(T(args), T) is true, for arbitrary bracket-balanced arguments (strings may hold any bracket but parentheses for the break_last_block based ones)',
+	'retired_range_split / retired_range_lt_hazard': 'NOT a production site since /repo ed1a7d7 (proc_for_range transpiles the argument nodes): break_separator(pluck_func_call_arguments(callee(a, b)), ",") gives the argument texts for bracket-balanced arguments; a lone "<" in an argument (range(a << 1, n)) is not balanced, swallows the comma and the unpacking raises ValueError - the hazard the fix removed',
 	'query_any': 'DecoratorQuery.any(*paths) = the decorators whose text before the first "(" is in paths, in order; contains(*paths) = whether there is one',
 	'sep_multichar_rejoin_counterexample': 'for a multi-character delimiter the rejoin law is false when occurrences overlap: break_separator("a:::b", "::") = ["a", "", "b"]',
 }
@@ -1187,7 +1210,7 @@ def run(ctx: Ctx) -> int:
 		translate_ok=translate_ok, translate_msg=translate_msg,
 		statements=STATEMENTS,
 		partial={
-			'proved (all fragments, unbounded nesting, induction on Frag)': 'splitting = exact top-level split (hence cuts only at top-level delimiters, rejoin up to blanks, balanced pieces) for fragments with arbitrary simple strings; last bracket group of prefix+group (strings may contain the other bracket kinds and quotes); error branch; skip; decorator path/join_args/pieces and the key/value of positional and labelled pieces; parameter type/name/default for every default fragment; parse_bracket = the groups two levels deep in pre-order; the production callers (range / throw / dict-comprehension / pluck / indexer); DecoratorQuery.any / contains; termination of _parse/_parse_block/_analyze_entry on every text',
+			'proved (all fragments, unbounded nesting, induction on Frag)': 'splitting = exact top-level split (hence cuts only at top-level delimiters, rejoin up to blanks, balanced pieces) for fragments with arbitrary simple strings; last bracket group of prefix+group (strings may contain the other bracket kinds and quotes); error branch; skip; decorator path/join_args/pieces and the key/value of positional and labelled pieces; parameter type/name/default for every default fragment; parse_bracket = the groups two levels deep in pre-order; the production callers (throw / dict-comprehension / pluck / indexer / is_initializer_call; the former range splitting only as a statement about the helpers); DecoratorQuery.any / contains; termination of _parse/_parse_block/_analyze_entry on every text',
 			'formerly false, proved after the repairs 3111a97 d6d867d eb33d21 f350973': 'param_unrestricted, decorator_positional, sep_spec_dirty, bracket_first/bracket_spec; the old witnesses are replayed from corpus/C18 and by the searches and must pass',
 			'correspondence + search only': 'the parse_pair law ((key, value) texts per depth on dict-like fragments with blank-free pieces, incl. directly adjacent foreign groups: structure-side oracle + stream block-dictlike; parse_pair has no caller); DecoratorHelper.match / match_args (regular expressions, not modelled); multi-character delimiters without overlap (positive law not proved), empty delimiter, brackets arguments of other lengths, unbalanced text (correspondence)',
 		},
